@@ -24,6 +24,7 @@ func init() {
 			"(R6) under mode==TwoWaySafe, when both sides have non-deletion changes, the only emission is a conflict; " +
 			"(R7) controller.synchronize folds each transition RESULT (not the planned New) into the ancestor, so a failed creation is never recorded as synchronized. " +
 			"(R8, just-in-time check — the rule family of C08.R4) ensureExpectedFile/ensureExpectedSymbolicLink accept only when mode, size, exact modification time, file identity and digest (resp. link target) equal what the scan recorded, so content modified after the scan is not removed or replaced. " +
+			"(R9, shared with C08.R3) only swapFile asks findAndMoveStagedFileIntoPlace for a replacing move, and only after its just-in-time check of the OLD file; every creation passes replace=false and every rename honours that flag — so content that appeared at a path after the scan is never overwritten by a created file. " +
 			"Not decided: correctness of Entry.Equal / synchronizable / nameUnion themselves (C07), the rest of the on-disk check-before-write layer (C08), multi-cycle histories.",
 		Assumptions: []string{"diff, synchronizable and extractNonDeletionChanges are pure (two calls with equal arguments are equal)", "Entry values are immutable once scanned (C07.R3)"},
 		Run:         runC01,
@@ -76,6 +77,10 @@ func runC01(c *eng.Ctx) {
 	// R8: the just-in-time on-disk check before a file or link is removed or
 	// replaced (the third mechanism of the property; shared with C08.R4).
 	trEnsureExpected(c, "R8")
+
+	// R9: creation never replaces. Content that appeared at a path after the
+	// scan was never synchronized; a staged file moved over it would destroy it.
+	trSwapFile(c, "R9")
 }
 
 // c01DiffRules decides the shape of differ.diff (shared with C07).
